@@ -1,4 +1,5 @@
 """Metamorphic comparisons on the implementation: answer sets per horizon of program variants."""
+import json
 import lang
 
 
@@ -39,3 +40,68 @@ def first_diff(a, b):
         if a['ok'][h] != b['ok'].get(h):
             return {'horizon': h, 'a': [' '.join(m) for m in a['ok'][h]][:8], 'b': [' '.join(m) for m in b['ok'].get(h, [])][:8]}
     return None
+
+
+# ------------------------------------------------------------------------------------------------ renaming of atoms
+# Answer sets are invariant under an injective renaming of the atoms.  Renaming the propositional atoms of a generated program to atoms WITH
+# ARGUMENTS (negative numbers, strings with escape sequences, tuples, nested terms) sends every argument through the places of the code that
+# rebuild symbols from theory terms (formula atoms in bodies, heads and path expressions), with the unrenamed program as the reference.
+AMAP = {'a': 'pa(-1)', 'b': 'qb("x\\"y",f(-2))', 'c': 'rc((1,2),"")', 'd': 'sd("\\\\",-3)'}
+# the theory of &del atoms has no unary minus (gringo rejects `&del { p(-1) .>? q }` with "missing definition for operator"): no negative numbers there
+AMAP_DEL = {'a': 'pa(1)', 'b': 'qb("x\\"y",f(2))', 'c': 'rc((1,2),"")', 'd': 'sd("\\\\",3)'}
+
+
+def rename(x, amap=AMAP):
+    if isinstance(x, str):
+        if x in amap:
+            return amap[x]
+        if x.startswith('-') and x[1:] in amap:
+            return '-' + amap[x[1:]]
+        return x
+    if isinstance(x, tuple):
+        return tuple(rename(y, amap) for y in x)
+    if isinstance(x, list):
+        return [rename(y, amap) for y in x]
+    if isinstance(x, dict):
+        return {k: (v if k == 'part' else rename(v, amap)) for k, v in x.items()}
+    return x
+
+
+def rename_atom_txt(s, amap):
+    neg = s.startswith('-')
+    body, t = (s[1:] if neg else s).rsplit('@', 1)
+    body = amap.get(body, body)
+    return ('-' if neg else '') + body + '@' + t
+
+
+def renaming_results(ctx, progs, H, timeout=40, amap=AMAP):
+    inputs = []
+    for p in progs:
+        inputs += [[lang.prog_txt(p)], [lang.prog_txt(rename(p, amap))]]
+    res = answer_sets(ctx, inputs, H, timeout=timeout)
+    out = []
+    for i, p in enumerate(progs):
+        a, b = res[2 * i], res[2 * i + 1]
+        if 'ok' in a:
+            a = {'ok': {h: sorted(tuple(sorted(rename_atom_txt(x, amap) for x in m)) for m in ms) for h, ms in a['ok'].items()}}
+        out.append((inputs[2 * i][0], inputs[2 * i + 1][0], a, b))
+    return out
+
+
+def renaming_cex(ctx, progs, H, prop, timeout=40, amap=AMAP):
+    """returns (counterexamples, number of programs compared with at least one answer set)"""
+    cex, nontriv = [], 0
+    for p, (t0, t1, a, b) in zip(progs, renaming_results(ctx, progs, H, timeout, amap)):
+        if not same(a, b):
+            cex.append({'key': '%s:renaming:%s' % (prop.lower(), t1.replace('\n', ' ')), 'what': 'the program and the same program with its atoms renamed to atoms with arguments report different answer sets (after renaming back): %s' % json.dumps(first_diff(a, b)),
+                        'input': {'renaming': amap, 'rules': p, 'H': H, 'program': t0, 'renamed_program': t1}})
+        elif 'ok' in a and any(a['ok'].values()):
+            nontriv += 1
+    return cex, nontriv
+
+
+def renaming_replay(ctx, payload):
+    inp = payload['input']
+    p = inp['rules']
+    (t0, t1, a, b), = renaming_results(ctx, [p], inp['H'], amap=inp['renaming'])
+    return not same(a, b)
